@@ -51,6 +51,110 @@ def generator_field(prog, cname):
     return gens[0]
 
 
+def r123_seed_wiring(ctx, c, ci=None, G=None):
+    prog = ctx.prog
+    ci = ci or prog.cls(c)
+    G = G or generator_field(prog, c)
+    isG = lambda n: is_self_attr(n, G)
+    ctx.rule('R12.3', f'seed wiring of {c}: set_seed stores and seeds the same value; reset re-seeds with the current seed; original seed is constructor-only')
+    ss = prog.method(c, 'set_seed', inherited=False)
+    p = ss.args.args[1].arg
+    seedf = prog.simple_return(c, 'seed')
+    origf = prog.simple_return(c, 'original_seed')
+    if seedf is None or origf is None or not is_self_attr(seedf) or not is_self_attr(origf):
+        raise AnalysisError(f'anchor vanished: {c}.seed()/original_seed() do not return fields')
+    from ..pathsum import PathSum, Unsupported as _Uns
+
+    def seed_summary(fn_, env_):
+        """[(stored current seed or None, stored original seed or None, [argument texts of self.G.seed(..) calls])] per accepted path"""
+        outs = PathSum(prog, c, fn_, env_, inline_self=True).run()
+        res = []
+        for o in outs:
+            if o.kind == 'raise':
+                continue
+            if any(isinstance(b_, str) for (_c, b_) in o.conds):
+                raise _Uns('undecided condition')
+            seeds_ = [unparse(k.args[0]) if k.args else '?' for k in o.calls if isinstance(k.func, ast.Attribute) and k.func.attr == 'seed' and isG(k.func.value)]
+            res.append((unparse(o.store[seedf.attr]) if seedf.attr in o.store else None, unparse(o.store[origf.attr]) if origf.attr in o.store else None, seeds_))
+        return res
+    cur = f'self.{seedf.attr}'
+    ot = f'self.{origf.attr}'
+    # what a finished constructor leaves in the original-seed field: an int, never None (checked on the constructor below); the cases a
+    # method can meet at entry are therefore "a non-zero int" and "0" (the distinction only matters to truth-value tests of the field)
+    LIVE = [('a non-zero original seed', {('isnone', ot): False, ('bool', ot): True}),
+            ('original seed 0', {ot: 0, ('isnone', ot): False, ('bool', ot): False})]
+    try:
+        rs_ = [(lab, r_) for (lab, env_) in LIVE for r_ in seed_summary(ss, env_)]
+        ok = bool(rs_) and all(st_ == p and sd_ == [p] and o_ in (None, ot) for (_l, (st_, o_, sd_)) in rs_)
+        shown = [r_ for (_l, r_) in rs_][:len(rs_) // 2 or 1]
+        for (lab, (st_, o_, sd_)) in rs_:
+            if st_ == p and sd_ == [p] and o_ not in (None, ot):
+                ok = None
+                ctx.ob('R12.3', f'{c}.set_seed', False, sample=f'{c}.set_seed({p}) with {lab}: original seed := {o_}')
+                ctx.finding('R12.3', f'{c}.set_seed:writes-original-seed', ci, ss,
+                            f'for a stream with {lab}, set_seed({p}) replaces the original seed by `{o_}`: the original seed is the one the stream was created with, '
+                            f'and what the seed updaters compute from it then depends on which seeds were set earlier', where=f'{c}.set_seed')
+                break
+    except _Uns:
+        stores = [n for n in walk_shallow(ss) if isinstance(n, (ast.Assign, ast.AnnAssign)) and any(is_self_attr(t, seedf.attr) for t in (n.targets if isinstance(n, ast.Assign) else [n.target]))]
+        seeds = [x for x in walk_shallow(ss) if isinstance(x, ast.Call) and isinstance(x.func, ast.Attribute) and x.func.attr == 'seed' and isG(x.func.value)]
+        ok = len(stores) == 1 and unparse(stores[0].value) == p and len(seeds) == 1 and len(seeds[0].args) == 1 and unparse(seeds[0].args[0]) in (p, unparse(seedf)) \
+            and len(body_of(ss)) == 2
+        shown = [short(s_) for s_ in body_of(ss)]
+    if ok is not None:
+        ctx.ob('R12.3', f'{c}.set_seed', ok, sample=f'{c}.set_seed({p}): (current seed, original seed, generator seeded with) per path = {shown}')
+    if ok is False:
+        ctx.finding('R12.3', f'{c}.set_seed', ci, ss, f'set_seed must store `{p}` as the current seed and seed the private generator with the same value, nothing else '
+                    f'(summary per path: current seed, original seed, generator seeded with = {shown})', where=f'{c}.set_seed')
+    rs = prog.method(c, 'reset', inherited=False)
+    b = body_of(rs)
+    try:
+        rr_ = seed_summary(rs, {})
+        ok = bool(rr_) and all(st_ in (None, cur) and sd_ == [cur] for (st_, _o, sd_) in rr_)
+        shown = rr_
+    except _Uns:
+        ok = len(b) == 1 and unparse(b[0]) in (f'self.set_seed({unparse(seedf)})', f'self.{G}.seed({unparse(seedf)})')
+        shown = [short(s_) for s_ in b]
+    ctx.ob('R12.3', f'{c}.reset', ok, sample=f'{c}.reset: {shown}')
+    if not ok:
+        ctx.finding('R12.3', f'{c}.reset', ci, rs, f'reset must re-seed with the current seed `{unparse(seedf)}` (not the original seed, not a new one): {shown}', where=f'{c}.reset')
+    for m, fn in ci.methods.items():
+        for n in walk_shallow(fn):
+            if is_self_attr(n, origf.attr) and isinstance(n.ctx, ast.Store):
+                ok = m == '__init__'
+                if not ok:
+                    # a store that no constructed object can reach (it sits under "no original seed yet") writes nothing outside construction
+                    try:
+                        ok = all(o_ in (None, ot) for (_lab, env_) in LIVE for (_s, o_, _d) in seed_summary(fn, env_))
+                    except _Uns:
+                        ok = False
+                    if m == 'set_seed' and not ok:
+                        continue                  # reported above, with the case
+                ctx.ob('R12.3', f'{c}.{m}:orig-seed-write', ok)
+                if not ok:
+                    ctx.finding('R12.3', f'{c}.{m}:writes-original-seed', ci, n, 'the original seed is written outside the constructor', where=f'{c}.{m}')
+    init = prog.method(c, '__init__', inherited=False)
+    g = CFG(init)
+    calls = [x for x in walk_shallow(init) if isinstance(x, ast.Call) and isinstance(x.func, ast.Attribute) and is_self_attr(x.func) and x.func.attr == 'set_seed']
+    ostore = [n for n in walk_shallow(init) if isinstance(n, (ast.Assign, ast.AnnAssign)) and any(is_self_attr(t, origf.attr) for t in (n.targets if isinstance(n, ast.Assign) else [n.target]))]
+    ok = len(calls) == 1 and len(ostore) == 1 and unparse(calls[0].args[0]) == unparse(ostore[0].value)
+    if not ok:
+        # by cases (seed given / not given): original seed, current seed and the value the generator is seeded with are one and the same
+        try:
+            sp_ = init.args.args[1].arg
+            allr = []
+            for given in (True, False):
+                env_ = {('isnone', sp_): not given, ('bool', f'isinstance({sp_}, int)'): True}
+                allr += [(given, r_) for r_ in seed_summary(init, env_)]
+            ok = bool(allr) and all(o_ is not None and o_ != 'None' and st_ == o_ and sd_ == [o_] and (not given or o_ == sp_) for (given, (st_, o_, sd_)) in allr)
+        except _Uns:
+            pass
+    ctx.ob('R12.3', f'{c}.__init__', ok, sample=f'{c}.__init__: original seed := {short(ostore[0].value) if ostore else "?"}; {short(calls[0]) if calls else "no set_seed"}')
+    if not ok:
+        ctx.finding('R12.3', f'{c}.__init__:seed', ci, init, 'the constructor must remember the seed as original seed and seed the generator with the same value', where=f'{c}.__init__')
+
+
+
 def check_stream(ctx, c):
     prog = ctx.prog
     ci = prog.cls(c)
@@ -152,80 +256,9 @@ def check_stream(ctx, c):
     if not ok:
         ctx.finding('R12.6', f'{c}.next_bool', ci, fn, 'next_bool is not a comparison of one generator draw with a constant', where=f'{c}.next_bool')
     r127_int_range(ctx, c, ci, G)
-    ctx.rule('R12.3', f'seed wiring of {c}: set_seed stores and seeds the same value; reset re-seeds with the current seed; original seed is constructor-only')
-    ss = prog.method(c, 'set_seed', inherited=False)
-    p = ss.args.args[1].arg
-    seedf = prog.simple_return(c, 'seed')
-    origf = prog.simple_return(c, 'original_seed')
-    if seedf is None or origf is None or not is_self_attr(seedf) or not is_self_attr(origf):
-        raise AnalysisError(f'anchor vanished: {c}.seed()/original_seed() do not return fields')
-    from ..pathsum import PathSum, Unsupported as _Uns
-
-    def seed_summary(fn_, env_):
-        """[(stored current seed or None, stored original seed or None, [argument texts of self.G.seed(..) calls])] per accepted path"""
-        outs = PathSum(prog, c, fn_, env_, inline_self=True).run()
-        res = []
-        for o in outs:
-            if o.kind == 'raise':
-                continue
-            if any(isinstance(b_, str) for (_c, b_) in o.conds):
-                raise _Uns('undecided condition')
-            seeds_ = [unparse(k.args[0]) if k.args else '?' for k in o.calls if isinstance(k.func, ast.Attribute) and k.func.attr == 'seed' and isG(k.func.value)]
-            res.append((unparse(o.store[seedf.attr]) if seedf.attr in o.store else None, unparse(o.store[origf.attr]) if origf.attr in o.store else None, seeds_))
-        return res
-    cur = f'self.{seedf.attr}'
-    try:
-        rs_ = seed_summary(ss, {})
-        ok = bool(rs_) and all(st_ == p and sd_ == [p] for (st_, _o, sd_) in rs_)
-        shown = rs_
-    except _Uns:
-        stores = [n for n in walk_shallow(ss) if isinstance(n, (ast.Assign, ast.AnnAssign)) and any(is_self_attr(t, seedf.attr) for t in (n.targets if isinstance(n, ast.Assign) else [n.target]))]
-        seeds = [x for x in walk_shallow(ss) if isinstance(x, ast.Call) and isinstance(x.func, ast.Attribute) and x.func.attr == 'seed' and isG(x.func.value)]
-        ok = len(stores) == 1 and unparse(stores[0].value) == p and len(seeds) == 1 and len(seeds[0].args) == 1 and unparse(seeds[0].args[0]) in (p, unparse(seedf)) \
-            and len(body_of(ss)) == 2
-        shown = [short(s_) for s_ in body_of(ss)]
-    ctx.ob('R12.3', f'{c}.set_seed', ok, sample=f'{c}.set_seed({p}): (current seed, original seed, generator seeded with) per path = {shown}')
-    if not ok:
-        ctx.finding('R12.3', f'{c}.set_seed', ci, ss, f'set_seed must store `{p}` as the current seed and seed the private generator with the same value, nothing else '
-                    f'(summary per path: current seed, original seed, generator seeded with = {shown})', where=f'{c}.set_seed')
-    rs = prog.method(c, 'reset', inherited=False)
-    b = body_of(rs)
-    try:
-        rr_ = seed_summary(rs, {})
-        ok = bool(rr_) and all(st_ in (None, cur) and sd_ == [cur] for (st_, _o, sd_) in rr_)
-        shown = rr_
-    except _Uns:
-        ok = len(b) == 1 and unparse(b[0]) in (f'self.set_seed({unparse(seedf)})', f'self.{G}.seed({unparse(seedf)})')
-        shown = [short(s_) for s_ in b]
-    ctx.ob('R12.3', f'{c}.reset', ok, sample=f'{c}.reset: {shown}')
-    if not ok:
-        ctx.finding('R12.3', f'{c}.reset', ci, rs, f'reset must re-seed with the current seed `{unparse(seedf)}` (not the original seed, not a new one): {shown}', where=f'{c}.reset')
-    for m, fn in ci.methods.items():
-        for n in walk_shallow(fn):
-            if is_self_attr(n, origf.attr) and isinstance(n.ctx, ast.Store):
-                ok = m == '__init__'
-                ctx.ob('R12.3', f'{c}.{m}:orig-seed-write', ok)
-                if not ok:
-                    ctx.finding('R12.3', f'{c}.{m}:writes-original-seed', ci, n, 'the original seed is written outside the constructor', where=f'{c}.{m}')
+    r123_seed_wiring(ctx, c, ci, G)
     init = prog.method(c, '__init__', inherited=False)
     g = CFG(init)
-    calls = [x for x in walk_shallow(init) if isinstance(x, ast.Call) and isinstance(x.func, ast.Attribute) and is_self_attr(x.func) and x.func.attr == 'set_seed']
-    ostore = [n for n in walk_shallow(init) if isinstance(n, (ast.Assign, ast.AnnAssign)) and any(is_self_attr(t, origf.attr) for t in (n.targets if isinstance(n, ast.Assign) else [n.target]))]
-    ok = len(calls) == 1 and len(ostore) == 1 and unparse(calls[0].args[0]) == unparse(ostore[0].value)
-    if not ok:
-        # by cases (seed given / not given): original seed, current seed and the value the generator is seeded with are one and the same
-        try:
-            sp_ = init.args.args[1].arg
-            allr = []
-            for given in (True, False):
-                env_ = {('isnone', sp_): not given, ('bool', f'isinstance({sp_}, int)'): True}
-                allr += [(given, r_) for r_ in seed_summary(init, env_)]
-            ok = bool(allr) and all(o_ is not None and st_ == o_ and sd_ == [o_] and (not given or o_ == sp_) for (given, (st_, o_, sd_)) in allr)
-        except _Uns:
-            pass
-    ctx.ob('R12.3', f'{c}.__init__', ok, sample=f'{c}.__init__: original seed := {short(ostore[0].value) if ostore else "?"}; {short(calls[0]) if calls else "no set_seed"}')
-    if not ok:
-        ctx.finding('R12.3', f'{c}.__init__:seed', ci, init, 'the constructor must remember the seed as original seed and seed the generator with the same value', where=f'{c}.__init__')
 
     ctx.rule('R12.8', f'{c}.__init__: a seed given by the caller is never replaced -- every local assignment that computes a seed (clock fallback) is reachable only when the seed parameter is None')
     sp = init.args.args[1].arg if len(init.args.args) > 1 else None
